@@ -91,6 +91,11 @@ func flavourErr(f int, c string) error {
 		return &fs.PathError{Op: "open", Path: "/blocks/" + c, Err: fs.ErrNotExist}
 	case 3:
 		return fmt.Errorf("read block %s: %w", c, context.DeadlineExceeded)
+	case 5:
+		// a store that runs out of data while looking for the block (a
+		// truncated CAR stream, a block file cut to zero length) and reports
+		// that, as io packages do, with the bare io.EOF value
+		return io.EOF
 	case 4:
 		// what a visit-once / de-duplicating link loader returns for a block it
 		// refuses to hand out again; the traversal engine gives this value a
@@ -105,7 +110,7 @@ func (p faultPlan) String() string {
 	if p.flavour > 0 {
 		q := p
 		q.flavour = 0
-		return q.String() + " failing with " + []string{"", "io.ErrUnexpectedEOF", "*fs.PathError{fs.ErrNotExist}", "wrapped context.DeadlineExceeded", "traversal.SkipMe{}"}[p.flavour]
+		return q.String() + " failing with " + []string{"", "io.ErrUnexpectedEOF", "*fs.PathError{fs.ErrNotExist}", "wrapped context.DeadlineExceeded", "traversal.SkipMe{}", "io.EOF"}[p.flavour]
 	}
 	if p.kth >= 0 {
 		return fmt.Sprintf("%s@load#%d(once)", p.kind, p.kth)
@@ -465,6 +470,9 @@ func (c12) runFile(ts *tape.Set, tier Tier) *Result {
 	for i, b := range blocks {
 		kind := []store.FaultKind{store.EIOOpen, store.EIOMid, store.NotFound}[i%3]
 		plans = append(plans, faultPlan{kind: kind, targets: []cid.Cid{b}, kth: -1, after: i * 13, flavour: 1 + i%4})
+		if i%2 == 0 {
+			plans = append(plans, faultPlan{kind: store.EIOOpen, targets: []cid.Cid{b}, kth: -1, flavour: 5})
+		}
 	}
 	for k := 1; k < nLoads; k += kthStride(nLoads) { // load 0 is the root
 		kind := faultKinds[k%len(faultKinds)]
